@@ -256,6 +256,14 @@ func (m *monitor) block(b *sim.Block, res *sim.BlockRes, dump map[string][]byte)
 					class = "missing-credit"
 				}
 				diff := new(big.Int).Sub(residual, due)
+				if dr != nil && du == nil {
+					du = new(big.Int)
+				}
+				if dr != nil && dr.Sign() > 0 && residual.Cmp(du) == 0 && h >= 2 &&
+					v.Amt("rwcum_tdist").Cmp(m.prev.Amt("rwcum_tdist")) == 0 && v.RwTotal().Cmp(m.prev.RwTotal()) == 0 && m.prev.RwTotal().Sign() > 0 {
+					// exactly the matured reward withdrawals are missing, and the block booked no block reward at all
+					class = "reward-withdrawal-not-paid-in-a-block-without-reward-processing"
+				}
 				for _, pe := range m.pre {
 					if pe.addr == a && pe.h != h && pe.amt.Cmp(diff) == 0 {
 						class = "genesis-pending-paid-at-other-height"
